@@ -144,6 +144,20 @@ def select_marker_genes_v2(
     return marker_gene_names
 
 
+def _verif_pairs(marker_gene_array, taxonomy_idx_array):
+    """
+    (verification hook helper) names of the leaf pairs behind
+    the pair indexes in taxonomy_idx_array
+    """
+    idx_to_pair = dict()
+    lookup = marker_gene_array.taxonomy_pair_to_idx
+    for level in lookup:
+        for node1 in lookup[level]:
+            for node2 in lookup[level][node1]:
+                idx_to_pair[lookup[level][node1][node2]] = [node1, node2]
+    return [idx_to_pair[int(idx)] for idx in taxonomy_idx_array]
+
+
 def _run_selection(
         marker_gene_array,
         utility_array,
@@ -176,6 +190,8 @@ def _run_selection(
             n_per_utility=int(n_per_utility),
             genes_at_a_time=int(genes_at_a_time),
             taxonomy_idx=taxonomy_idx_array,
+            taxonomy_pairs=_verif_pairs(marker_gene_array,
+                                        taxonomy_idx_array),
             n_genes=int(marker_gene_array.n_genes))
 
     # tally how many markers are chosen for each taxonomy pair
